@@ -205,7 +205,7 @@ func canonMap(m map[string][]string) string {
 func cliArchGen(c *engine.C) engine.Case {
 	m := c13Build(c, 3, true)
 	sel := engine.PickTag(c, "include", "all", "one-package", "one-type", "nothing")
-	merge := engine.PickTag(c, "merge", "none", "header", "package")
+	merge := engine.PickTag(c, "merge", "none", "header", "package", "header-and-package")
 	return func() engine.Result {
 		res := engine.Result{InputKey: strings.Join(m.desc, ";") + fmt.Sprint(m.types) + sel + merge, Input: map[string]interface{}{"types": fmt.Sprint(m.types), "relations": m.desc, "include": sel, "merge": merge}, Nontrivial: len(m.E) > 0}
 		cwd, cleanup := materialise(nil)
@@ -241,6 +241,10 @@ func cliArchGen(c *engine.C) engine.Case {
 		case "package":
 			args = append(args, "-P")
 			g = g.MergeHeaderFile(tequila.MergePackageFunc)
+		case "header-and-package":
+			// both options: the package merge of the header merge
+			args = append(args, "-H", "-P")
+			g = g.MergeHeaderFile(tequila.MergeHeaderFunc).MergeHeaderFile(tequila.MergePackageFunc)
 		}
 		r := runCLI(cwd, args...)
 		if cliFail(&res, "arch", r) {
